@@ -53,6 +53,19 @@ def r19_1(ctx, S, prog, crate):
         d = direct_place(b, t["discr"])
         if bi in S.loop["body"] and d and d[0] == "call" and d[1].callee == "benchmark::BenchMode::is_tune" and d[1].bb in S.loop["body"]:
             tune_sw = (bi, t, d[1])
+    if tune_sw is None:
+        # or a match on the mode itself: `if let BenchMode::Tune { .. } = current_mode`
+        names_ = tables.variant_names(prog, "benchmark::BenchMode", crate) or []
+        ssz_ = [c for c in b.live_calls() if c.callee == "benchmark::BenchMode::sample_size" and c.bb in S.loop["body"]]
+        mode_var_ = S.root_local(ssz_[0].args[0]["p"]["l"]) if ssz_ and ssz_[0].args[0]["k"] in ("copy", "move") else None
+        for bi, t, base in tables.discr_switches(b):
+            if bi in S.loop["body"] and "Tune" in names_ and (b.local_ty(base) or "").endswith("benchmark::BenchMode") and mode_var_ is not None and S.root_local(base) == mode_var_ \
+                    and ssz_ and b.dominates(ssz_[0].bb, bi):
+                arms, otherwise = tables.arm_targets(t)
+                tune_t_ = arms.get(names_.index("Tune"), otherwise)
+                others_ = {x_ for x_ in list(arms.values()) + [otherwise] if x_ != tune_t_ and not (b.blocks[x_]["term"]["k"] == "unreachable" and not b.blocks[x_]["stmts"])}
+                if len(others_) == 1:
+                    tune_sw = (bi, {"k": "switch", "arms": [["0", list(others_)[0]]], "otherwise": tune_t_, "discr": t["discr"]}, None)
     if not ctx.check(tune_sw is not None, "R19.1", [b.path, "is_tune-branch"], "no per-round branch on current_mode.is_tune()", b.where(S.loop["header"])):
         return None
     bi, t, tc = tune_sw
